@@ -1,50 +1,215 @@
 import Gaftools.Model.Phase
+import Gaftools.Spec.Phase
 import Gaftools.Props.C16
 /-!
 # C20 — phase annotates every record without altering it
 -/
 namespace Gaftools.C20
-open Gaftools.Gaf Gaftools.Phase Gaftools.Spec.Gaf
+open Gaftools.Gaf Gaftools.Phase Gaftools.Spec.Gaf Gaftools.Spec.Phase Gaftools.Proofs.Gaf
 
-/-- SPEC: the haplotype / phase-set values of a read: first TSV line naming the read; 'none' when absent or unphased -/
-def specValues (es : List TsvEntry) (q : Str) : Str × Str :=
-  match es.find? (·.read == q) with
-  | some e => if e.hap == noneStr then (noneStr, noneStr) else (e.chr ++ ['-'] ++ e.pset, e.hap)
-  | none => (noneStr, noneStr)
+/-! helper lemmas -/
+theorem find?_foldl_tsvStep (q : Str) (es acc : List TsvEntry) :
+    (es.foldl tsvStep acc).find? (·.read == q) = (acc.find? (·.read == q)).or (es.find? (·.read == q)) := by
+  induction es generalizing acc with
+  | nil => simp
+  | cons e es ih =>
+    rw [List.foldl_cons, ih]
+    unfold tsvStep
+    by_cases hany : acc.any (·.read == e.read) = true
+    · rw [if_pos hany]
+      cases hacc : acc.find? (·.read == q) with
+      | some x => rfl
+      | none =>
+        have hne : ¬ (e.read == q) = true := by
+          intro heq
+          rw [List.any_eq_true] at hany
+          obtain ⟨x, hx, hxe⟩ := hany
+          rw [List.find?_eq_none] at hacc
+          apply hacc x hx
+          rw [beq_iff_eq] at hxe heq ⊢
+          exact hxe.trans heq
+        simp only [Option.none_or, List.find?_cons]
+        simp only [hne]
+    · rw [if_neg hany, List.find?_append, Option.or_assoc]
+      congr 1
+      simp only [List.find?_cons, List.find?_nil]
+      cases (e.read == q) <;> simp
 
-/-- SPEC: the output record = the input's twelve columns, then ps:Z and ht:Z, then the input's optional fields -/
-def specFields (es : List TsvEntry) (fs : List Str) : List Str :=
-  let e := expected fs
-  let v := specValues es (cutAtSpace (fs.headD []))
-  e.take 12 ++ ["ps:Z:".toList ++ v.1, "ht:Z:".toList ++ v.2] ++ e.drop 12
+theorem mapM_option_spec {α β : Type} (f : α → Option β) (l : List α) (out : List β) (h : l.mapM f = some out) :
+    out.length = l.length ∧ ∀ i (hi : i < l.length), ∃ r, f l[i] = some r ∧ out[i]? = some r := by
+  induction l generalizing out with
+  | nil =>
+    simp only [List.mapM_nil] at h
+    cases h
+    exact ⟨rfl, fun i hi => absurd hi (Nat.not_lt_zero _)⟩
+  | cons a l ih =>
+    rw [List.mapM_cons] at h
+    cases hfa : f a with
+    | none => simp [hfa] at h
+    | some b =>
+      cases hl : l.mapM f with
+      | none => simp [hfa, hl] at h
+      | some bs =>
+        simp only [hfa, hl, Option.pure_def, Option.bind_eq_bind, Option.bind_some, Option.some.injEq] at h
+        subst h
+        obtain ⟨hlen, hget⟩ := ih bs hl
+        refine ⟨by simp [hlen], ?_⟩
+        intro i hi
+        cases i with
+        | zero => exact ⟨b, hfa, rfl⟩
+        | succ i =>
+          obtain ⟨r, hr, ho⟩ := hget i (by simpa using hi)
+          exact ⟨r, by simpa using hr, by simpa using ho⟩
 
 /-- the dict built from the TSV answers like "first line naming the read" -/
 theorem lookup_first (es : List TsvEntry) (q : Str) :
     lookupPhase (buildPhase es) q = es.find? (·.read == q) := by
-  sorry
+  unfold lookupPhase buildPhase
+  rw [find?_foldl_tsvStep]
+  rfl
 
 /-- one record in, one record out, i-th from i-th -/
 theorem phase_lines (tsv gaf out : List Str) (h : phaseFile tsv gaf = some out) :
     out.length = gaf.length ∧
     ∃ es, tsv.mapM parseTsvLine = some es ∧
       ∀ i (hi : i < gaf.length), ∃ r, parseLine gaf[i] = some r ∧ out[i]? = some (joinTab (phaseFields (buildPhase es) r)) := by
-  sorry
+  unfold phaseFile at h
+  cases hes : tsv.mapM parseTsvLine with
+  | none => simp [hes] at h
+  | some es =>
+    cases hrs : gaf.mapM parseLine with
+    | none => simp [hes, hrs] at h
+    | some recs =>
+      simp only [hes, hrs, Option.pure_def, Option.bind_eq_bind, Option.bind_some, Option.some.injEq] at h
+      subst h
+      obtain ⟨hlen, hget⟩ := mapM_option_spec parseLine gaf recs hrs
+      refine ⟨by simp [hlen], es, rfl, ?_⟩
+      intro i hi
+      obtain ⟨r, hr, ho⟩ := hget i hi
+      exact ⟨r, hr, by simp [ho]⟩
 
 /-- every record keeps its twelve columns (strand included) and its optional fields and gains ps:Z / ht:Z with the
     values of the first TSV line of that read -/
 theorem phase_record (es : List TsvEntry) (fs : List Str) (h : wfFields fs = true) (hr : noRepeatedTag fs = true) :
     (parseFields fs).map (phaseFields (buildPhase es)) = some (specFields es fs) := by
-  sorry
+  obtain ⟨r, hp, hm, hq, ht⟩ := parse_tags_of_noRepeated fs h hr
+  rw [hp, Option.map_some]
+  congr 1
+  unfold phaseFields specFields
+  rw [hm, ht, hq]
+  congr 2
+  unfold phaseTags specValues
+  rw [lookup_first]
+  cases es.find? (·.read == cutAtSpace (fs.headD [])) with
+  | none => rfl
+  | some e =>
+    by_cases hh : e.hap = noneStr
+    · simp only [hh, bne_self_eq_false, Bool.false_eq_true, if_false, beq_self_eq_true, if_true]; rfl
+    · have h1 : (e.hap != noneStr) = true := by simpa using hh
+      have h2 : ¬ (e.hap == noneStr) = true := by simpa using hh
+      simp only [h1, h2, if_true, List.append_assoc, Bool.false_eq_true, if_false]
 
-/-- a TSV entry whose fields are printable and non-empty -/
-def wfEntry (e : TsvEntry) : Bool :=
-  !e.hap.isEmpty && e.hap.all printable && e.chr.all printable && e.pset.all printable
+/-! ### why `phase_wellformed` needs the hypothesis `hlast`
 
-/-- the output is again a well-formed GAF line (no empty column, no doubled separator, tags intact) -/
+Without it the statement is false: `wfFields fs` only constrains the *last* optional field not to end in a
+blank; when that field is a `ds:Z:` field it is dropped and an earlier field ending in a blank becomes last. -/
+def cxFields : List Str := ["r1", "100", "0", "100", "+", ">s1", "3293", "0", "100", "97", "100", "60",
+  "XX:Z:foo ", "ds:Z:abc"].map String.toList
+example : wfFields cxFields = true ∧ noRepeatedTag cxFields = true ∧ wfFields (specFields [] cxFields) = false := by decide
+
+theorem wfFields_of {f0 f1 f2 f3 f4 f5 f6 f7 f8 f9 f10 f11 : Str} {opt : List Str}
+    (h0 : f0 ≠ []) (h0a : f0.all printableSp = true) (h0h : f0.head? ≠ some ' ')
+    (h1 : canonDec f1 = true) (h2 : canonDec f2 = true) (h3 : canonDec f3 = true) (h4 : f4.all printable = true)
+    (h5 : f5.all printable = true) (h5n : f5 ≠ [])
+    (h6 : canonDec f6 = true) (h7 : canonDec f7 = true) (h8 : canonDec f8 = true) (h9 : canonDec f9 = true)
+    (h10 : canonDec f10 = true) (h11 : canonDec f11 = true) (hopt : opt.all wfTag = true)
+    (hl : ∀ l, (f11 :: opt).getLast? = some l → ∀ c, l.getLast? = some c → c ≠ ' ') :
+    wfFields (f0 :: f1 :: f2 :: f3 :: f4 :: f5 :: f6 :: f7 :: f8 :: f9 :: f10 :: f11 :: opt) = true := by
+  unfold wfFields
+  have e0 : f0.isEmpty = false := by cases f0 <;> simp_all
+  have e5 : f5.isEmpty = false := by cases f5 <;> simp_all
+  have eh : (f0.head? != some ' ') = true := by simpa using h0h
+  simp only [e0, e5, eh, h0a, h1, h2, h3, h4, h5, h6, h7, h8, h9, h10, h11, hopt, Bool.not_false, Bool.and_self,
+    Bool.true_and]
+  split
+  · rename_i l hL
+    split
+    · rename_i c hc
+      simpa using hl l hL c hc
+    · rfl
+  · rfl
+
+theorem cutAtSpace_wf {f0 : Str} (h0 : f0 ≠ []) (h0a : f0.all printableSp = true) (h0h : f0.head? ≠ some ' ') :
+    cutAtSpace f0 ≠ [] ∧ (cutAtSpace f0).all printableSp = true ∧ (cutAtSpace f0).head? ≠ some ' ' := by
+  cases f0 with
+  | nil => exact absurd rfl h0
+  | cons c t =>
+    have hc : c ≠ ' ' := by simpa using h0h
+    have hcut : cutAtSpace (c :: t) = c :: cutAtSpace t := by
+      simp [cutAtSpace, hc]
+    rw [hcut]
+    refine ⟨by simp, ?_, by simpa using hc⟩
+    rw [← hcut, List.all_eq_true]
+    intro x hx
+    exact List.all_eq_true.1 h0a x ((List.takeWhile_sublist _).subset hx)
+
+theorem wfTag_psht (a b : Char) (ha : a.isAlpha = true) (hb : b.isAlphanum = true) (v : Str)
+    (hv : v.all printableSp = true) : wfTag (a :: b :: ':' :: 'Z' :: ':' :: v) = true := by
+  simp [wfTag, ha, hb, hv, isTagType]
+
+theorem specValues_wf (es : List TsvEntry) (hes : ∀ e ∈ es, wfEntry e = true) (q : Str) :
+    (specValues es q).1.all printable = true ∧ (specValues es q).2.all printable = true := by
+  unfold specValues
+  cases hf : es.find? (·.read == q) with
+  | none => exact ⟨by decide, by decide⟩
+  | some e =>
+    have hw := hes e (List.mem_of_find?_eq_some hf)
+    simp only [wfEntry, Bool.and_eq_true] at hw
+    by_cases hh : (e.hap == noneStr) = true
+    · simp only [hh, if_true]; exact ⟨by decide, by decide⟩
+    · simp only [hh, Bool.false_eq_true, if_false, List.all_append, Bool.and_eq_true]
+      exact ⟨⟨⟨hw.1.2, by decide⟩, hw.2⟩, hw.1.1.2⟩
+
+/-- the output is again a well-formed GAF line (no empty column, no doubled separator, tags intact), provided the last
+    *kept* optional field does not end in a blank
+    (implied e.g. by "the last optional field is not `ds:Z:`" or by "no optional field ends in a blank") -/
 theorem phase_wellformed (es : List TsvEntry) (hes : ∀ e ∈ es, wfEntry e = true)
-    (fs : List Str) (h : wfFields fs = true) (hr : noRepeatedTag fs = true) :
+    (fs : List Str) (h : wfFields fs = true)
+    (hlast : ∀ l, (keptOpt (fs.drop 12)).getLast? = some l → l.getLast? ≠ some ' ') :
     wfFields (specFields es fs) = true := by
-  sorry
+  obtain ⟨f0, f1, f2, f3, f4, f5, f6, f7, f8, f9, f10, f11, opt, rfl, h0, h0a, h0h, h1, h2, h3, h4, h5, h5n,
+    h6, h7, h8, h9, h10, h11, hopt, hl⟩ := wfFields_cases h
+  obtain ⟨c0, c0a, c0h⟩ := cutAtSpace_wf h0 h0a h0h
+  obtain ⟨hv1, hv2⟩ := specValues_wf es hes (cutAtSpace f0)
+  have hshape : specFields es (f0 :: f1 :: f2 :: f3 :: f4 :: f5 :: f6 :: f7 :: f8 :: f9 :: f10 :: f11 :: opt) =
+      cutAtSpace f0 :: f1 :: f2 :: f3 :: f4 :: f5 :: f6 :: f7 :: f8 :: f9 :: f10 :: f11 ::
+        (('p' :: 's' :: ':' :: 'Z' :: ':' :: (specValues es (cutAtSpace f0)).1) ::
+         ('h' :: 't' :: ':' :: 'Z' :: ':' :: (specValues es (cutAtSpace f0)).2) :: keptOpt opt) := rfl
+  rw [hshape]
+  generalize specValues es (cutAtSpace f0) = v at hv1 hv2
+  have hkept : (keptOpt opt).all wfTag = true := by
+    rw [List.all_eq_true]
+    exact fun k hk => List.all_eq_true.1 hopt k (mem_keptOpt hk)
+  apply wfFields_of c0 c0a c0h h1 h2 h3 h4 h5 h5n h6 h7 h8 h9 h10 h11
+  · simp only [List.all_cons, Bool.and_eq_true]
+    exact ⟨wfTag_psht _ _ (by decide) (by decide) _ (all_printableSp_of_printable hv1),
+      wfTag_psht _ _ (by decide) (by decide) _ (all_printableSp_of_printable hv2), hkept⟩
+  · intro l hL c hc
+    rw [List.getLast?_cons_cons, List.getLast?_cons_cons] at hL
+    cases hk : keptOpt opt with
+    | nil =>
+      rw [hk] at hL
+      simp only [List.getLast?_singleton, Option.some.injEq] at hL
+      subst hL
+      have hm := List.mem_of_getLast? hc
+      have : ('h' :: 't' :: ':' :: 'Z' :: ':' :: v.2).all printable = true := by
+        simp only [List.all_cons, hv2, Bool.and_true]; decide
+      exact printable_ne_space (List.all_eq_true.1 this c hm)
+    | cons k ks =>
+      rw [hk, List.getLast?_cons_cons] at hL
+      have := hlast l (by simpa [hk] using hL)
+      intro hcs
+      exact this (hcs ▸ hc)
 
 /-! non-vacuity -/
 def exTsv : List TsvEntry := [⟨"r1".toList, "H1".toList, "555".toList, "chr1".toList⟩, ⟨"r1".toList, "H2".toList, "9".toList, "chr2".toList⟩,
